@@ -161,3 +161,52 @@ func VerifDeepestRef(sw *spec.Swagger, basePath string, ref spec.Ref) (string, *
 
 	return res.Ref.String(), res.Schema, res.Warnings, nil
 }
+
+// VerifNewRef is the exported image of one entry of the flatten context's newRefs map.
+type VerifNewRef struct {
+	Key      string
+	NewName  string
+	Path     string
+	IsOAIGen bool
+	Resolved bool
+	Schema   *spec.Schema
+	Parents  []string
+}
+
+// VerifPhase is what the sink receives at the end of each phase of Flatten.
+type VerifPhase struct {
+	Name     string
+	Opts     *FlattenOpts
+	NewRefs  map[string]VerifNewRef
+	Resolved map[string]string
+	Warnings []string
+}
+
+var verifSink func(VerifPhase)
+
+// VerifSetSink installs (or removes, with nil) the observer called at the end of each phase of Flatten.
+func VerifSetSink(f func(VerifPhase)) { verifSink = f }
+
+func verifPhase(name string, opts *FlattenOpts) {
+	if verifSink == nil {
+		return
+	}
+
+	ph := VerifPhase{Name: name, Opts: opts}
+	if c := opts.flattenContext; c != nil {
+		ph.NewRefs = make(map[string]VerifNewRef, len(c.newRefs))
+		for k, r := range c.newRefs {
+			ph.NewRefs[k] = VerifNewRef{
+				Key: r.key, NewName: r.newName, Path: r.path, IsOAIGen: r.isOAIGen, Resolved: r.resolved,
+				Schema: r.schema, Parents: append([]string(nil), r.parents...),
+			}
+		}
+		ph.Resolved = make(map[string]string, len(c.resolved))
+		for k, v := range c.resolved {
+			ph.Resolved[k] = v
+		}
+		ph.Warnings = append([]string(nil), c.warnings...)
+	}
+
+	verifSink(ph)
+}
